@@ -33,7 +33,8 @@ RULE = ('lookup: a FRESH interpreter per case (module defaults are read from the
         'finding stream). use: every DOCUMENTED setting (enumerated from the doc table; IN_APP_EXCLUDE / APP_ROOT have their own '
         'streams) at its USE SITE — GRPCService.start channel kind and target, LongPoll.start timer, logging.init file, '
         'AuthProvider.get_provider, is_app_frame — given in code as the native value (bool, int, float, list) and as '
-        'DEEP_<KEY> text (deep.config re-imported), both routes must make the consumer do the same. seq: 2-4 frame configurations one after the other in the SAME (fresh) interpreter over the same files, '
+        'DEEP_<KEY> text (deep.config re-imported), both routes must make the consumer do the same; third route: the native '
+        'value in code AND a DIFFERENT text in DEEP_<KEY> (a consumer reading the environment itself shows up). seq: 2-4 frame configurations one after the other in the SAME (fresh) interpreter over the same files, '
         'each step judged by its own configuration (self-contained replays for process-lifetime state). ga: ConfigService.__getattribute__ alone, in-process — code dict of 0–6 entries over module settings, '
         'unknown names, names the object has of its own and dunders (None, plain values, callables of every kind), an object '
         'whose custom dict is None (a fifth), DEEP_<name> for names the module does not have; ~14 names read per case. '
@@ -503,7 +504,9 @@ USE_VALUES = {
                        ('no', {'s': 'no'}), ('T', {'s': 'T'})],
     'POLL_TIMER': [('0.25', {'f': '0.25'}), ('1.5', {'f': '1.5'}), ('10', {'i': 10}), ('1', {'i': 1}),
                    ('0.05', {'f': '0.05'}), ('2.5', {'s': '2.5'}), (' 2 ', {'i': 2}), ('30', {'i': 30}),
-                   ('0.5', {'f': '0.5'}), ('10.5', {'f': '10.5'})],
+                   ('0.5', {'f': '0.5'}), ('10.5', {'f': '10.5'}),
+                   # float() notations outside the model's decimal alphabet (Use.unmodelled): judged by the oracle only
+                   ('1e1', {'f': '10.0'}), ('\u0661\u0660', {'i': 10}), ('1_0', {'i': 10}), ('5E-1', {'f': '0.5'})],
     'LOGGING_CONF': [(t, {'s': t}) for t in ('/nonexistent/logging.conf', '', 'rel.conf')],
     'SERVICE_AUTH_PROVIDER': [(t, {'s': t}) for t in ('', 'deep.api.auth.BasicAuthProvider', 'nomodule.Nope',
                                                       'noclasspath')],
@@ -523,7 +526,13 @@ def g_use(rng):
     else:
         t = rng.choice(TEXTS)       # a newly documented setting: text in both forms
         v = {'s': t}
-    return {'kind': 'use', 'key': key, 'text': t, 'native': v, 'files': g_paths(rng, 4)}
+    # a DIFFERENT text for the variable while the native value is given in code: the code value must decide at the use site
+    if key == 'IN_APP_INCLUDE':
+        t2 = rng.choice(['/other', '/x,/y', ''])
+    else:
+        others = [a for a, _ in USE_VALUES.get(key, [(x, None) for x in TEXTS]) if a != t]
+        t2 = rng.choice(others) if others else t + 'x'
+    return {'kind': 'use', 'key': key, 'text': t, 'native': v, 'text2': t2, 'files': g_paths(rng, 4)}
 
 
 def g_seq(rng):
@@ -908,7 +917,13 @@ def run_use(case):
             os.environ[var] = px_sub(case['text'], px)
             importlib.reload(dc)
             env = use_site(dc.ConfigService({'APP_ROOT': '/nowhere-root'}, tracepoints=TracepointConfigService()), key, files)
-            return {'code': code, 'env': env, 'exec_prefix': px,
+            both = None
+            if 'text2' in case:
+                os.environ[var] = px_sub(case['text2'], px)
+                importlib.reload(dc)
+                both = use_site(dc.ConfigService({key: native, 'APP_ROOT': '/nowhere-root'},
+                                                 tracepoints=TracepointConfigService()), key, files)
+            return {'code': code, 'env': env, 'both': both, 'exec_prefix': px,
                     'proc_env': {k: v for k, v in os.environ.items() if k.startswith('DEEP_') and k != var}}
         except Exception as e:      # noqa: B902
             return {'raised': f'{type(e).__name__}: {e}'}
@@ -1207,6 +1222,9 @@ def oracle_use(case, obs):
     if obs['code'] != obs['env']:
         v.append(f'{case["key"]}: given in code as {case["native"]} its consumer does {obs["code"]}, given as '
                  f'DEEP_{case["key"]}={case["text"]!r} it does {obs["env"]}')
+    if obs.get('both') is not None and obs['both'] != obs['code']:
+        v.append(f'{case["key"]}: given in code as {case["native"]} its consumer does {obs["code"]}, but with '
+                 f'DEEP_{case["key"]}={case["text2"]!r} ALSO set it does {obs["both"]}: the code value must win at the use site')
     if case['key'] == 'POLL_TIMER':
         for route in ('code', 'env'):
             o = obs[route]
@@ -1264,6 +1282,7 @@ def model_request(case, obs):
             return None
         px = obs['exec_prefix']
         return {'kind': 'use', 'key': case['key'], 'text': px_sub(case['text'], px), 'px': px,
+                'text2': px_sub(case.get('text2', case['text']), px),
                 'native': json.loads(px_sub(json.dumps(case['native']), px)), 'env': pairs(obs.get('proc_env', {}))}
     if k == 'seq' and 'raised' in obs:
         return None
@@ -1328,7 +1347,9 @@ def compare(case, obs, resp):
     k = case['kind']
     d = []
     if k == 'use':
-        for route in ('code', 'env'):
+        for route in ('code', 'env', 'both'):
+            if obs.get(route) is None:
+                continue
             x = use_mismatch(case['key'], resp[route], obs[route])
             if x:
                 d.append(f'{case["key"]} ({route} route): model {resp[route]} vs implementation {obs[route]}: {x}')
